@@ -790,6 +790,8 @@ func runE10(p *an.Prog, r *an.Result) {
 				construct := "writer passed to " + nonEmpty(an.CallName(c), "a renderer")
 				if fromGiven(args[i]) {
 					r.OK(name, construct, an.InstrPos(in), "the writer the function received (or a wrapper around it)")
+				} else if !copiedToGiven(fn, args[i], fromGiven) {
+					r.OK(name, construct, an.InstrPos(in), "a buffer of the function's own whose content is kept (bound to a variable, returned), not copied to the writer it was handed: a capture")
 				} else {
 					r.Bad(name, construct, an.InstrPos(in), fmt.Sprintf("%s was handed a writer but renders into %s: output produced before an error, a break or a continue is lost or reordered, and nothing is written until the whole part has been rendered", an.FuncName(fn), describe(p, args[i])))
 				}
@@ -797,4 +799,75 @@ func runE10(p *an.Prog, r *an.Result) {
 		})
 	}
 	r.Floor("writers handed on", 10)
+}
+
+// copiedToGiven: the content of the private writer buf reaches a writer the function was handed:
+// buf.WriteTo(w), w.Write(buf.Bytes()), io.WriteString(w, buf.String()), io.Copy(w, buf).
+func copiedToGiven(fn *ssa.Function, buf ssa.Value, fromGiven func(ssa.Value) bool) bool {
+	roots := map[ssa.Value]bool{}
+	for _, o := range an.Origins(buf, an.StepValue) {
+		roots[o] = true
+		if mi, ok := o.(*ssa.MakeInterface); ok {
+			roots[mi.X] = true
+			for _, o2 := range an.Origins(mi.X, an.StepValue) {
+				roots[o2] = true
+			}
+		}
+	}
+	isBuf := func(v ssa.Value) bool {
+		if roots[v] {
+			return true
+		}
+		for _, o := range an.Origins(v, an.StepValue) {
+			if roots[o] {
+				return true
+			}
+			if mi, ok := o.(*ssa.MakeInterface); ok && roots[mi.X] {
+				return true
+			}
+		}
+		return false
+	}
+	// values that hold the buffer's content: results of methods called on it
+	content := map[ssa.Value]bool{}
+	for _, f := range unitOf(an.Outermost(fn)) {
+		an.EachInstr(f, func(in ssa.Instruction) {
+			c, ok := in.(*ssa.Call)
+			if !ok {
+				return
+			}
+			args := an.Args(&c.Call)
+			if len(args) > 0 && isBuf(args[0]) {
+				content[c] = true
+			}
+		})
+	}
+	found := false
+	for _, f := range unitOf(an.Outermost(fn)) {
+		an.EachInstr(f, func(in ssa.Instruction) {
+			c, ok := in.(*ssa.Call)
+			if !ok || found {
+				return
+			}
+			args := an.Args(&c.Call)
+			hasGiven, hasContent := false, false
+			for _, a := range args {
+				if isWriterType(a.Type()) && fromGiven(a) {
+					hasGiven = true
+				}
+				if isBuf(a) {
+					hasContent = true
+				}
+				for _, o := range an.Origins(a, an.StepValue) {
+					if content[o] {
+						hasContent = true
+					}
+				}
+			}
+			if hasGiven && hasContent {
+				found = true
+			}
+		})
+	}
+	return found
 }
